@@ -14,6 +14,7 @@ FLAV = {
     "7": "a change OUTSIDE the files the property's anchors list, in a helper, base class, constant table or module the anchored code depends on (follow the imports), whose effect on this property shows only for particular inputs",
     "8": "an inconsistency between two or three sites that must agree (a constant, a naming convention, an ordering, a default, a unit) where one site is changed and the others still use the old convention, so that each site alone looks right",
     "9": "an optimisation that changes an ORDER (iteration order of a dict, set or xpath result, the order two things are written or evaluated in, sorted versus insertion order) or replaces a list by a set / a scan by an index, which is invisible on ordinary data and shows on data with duplicates, ties, or a particular arrangement",
+    "0": "a change to a DATA file or data table the library ships and reads at run time rather than to its logic (src/pptx/templates/*.xml and default.pptx members, the big literal tables such as the auto-shape specification table, enumeration member tables, content-type tables, XML snippet strings inside writer classes): one entry, attribute, default or namespace declaration altered so that it shows only for the particular object kind, chart type, placeholder type or member that uses it",
     "4": "a document feature that python-pptx itself never writes but real-world files contain (an element, attribute, namespace prefix or part arrangement), or an interaction between two features that are each fine alone",
 }
 TEMPLATE = '''You are helping to test a verification tool by writing a realistic BUG for the open-source library python-pptx. Work ONLY inside your own scratch git worktree of the library: {wt} (a detached checkout; the package source is {wt}/src/pptx). Do NOT read, list or use anything under /verif or /root, and do not touch /repo. Python: run everything as `cd {wt} && PYTHONPATH={wt}/src PYTHONHASHSEED=0 /venv/bin/python ...`.
